@@ -68,6 +68,10 @@ var Family = []*T{
 	{Name: "OptOne", Kind: "struct", Repr: "map", Fields: []F{{Name: "N", Type: "String"}, {Name: "P", Type: "Plain", Optional: true}, {Name: "U", Type: "UnionK", Nullable: true}}},
 	{Name: "ListOO", Kind: "list", Elem: "OptOne"},
 	{Name: "MapOO", Kind: "map", Elem: "OptOne"},
+	{Name: "UnionKinded2", Kind: "union", Repr: "kinded", Members: []M{{Type: "Tuple", Kind: datamodel.Kind_List}, {Type: "Join", Kind: datamodel.Kind_String}, {Type: "MapSI", Kind: datamodel.Kind_Map}}},
+	{Name: "ListNP", Kind: "list", Elem: "Plain", ElemNullable: true},
+	{Name: "AllOpt", Kind: "struct", Repr: "map", Fields: []F{{Name: "A", Type: "Int", Optional: true}, {Name: "B", Type: "String", Optional: true}}},
+	{Name: "Swap", Kind: "struct", Repr: "map", Fields: []F{{Name: "L", Type: "Int", Rename: "R"}, {Name: "R", Type: "Int", Rename: "L"}, {Name: "Cur", Type: "String", Rename: "Prev"}, {Name: "Prev", Type: "String", Rename: "Arch"}}},
 	{Name: "EnumX", Kind: "enum", Repr: "string", NoGen: true, Members: []M{{Type: "Low", Discr: "Med"}, {Type: "Med", Discr: "High"}, {Type: "High", Discr: "Max"}}},
 	{Name: "Outer", Kind: "struct", Repr: "map", Fields: []F{{Name: "P", Type: "Plain"}, {Name: "L", Type: "ListI"}, {Name: "M", Type: "MapSI"}, {Name: "U", Type: "UnionK"}}},
 	{Name: "Nested", Kind: "struct", Repr: "map", NoGen: true, Fields: []F{{Name: "P", Type: "Plain"}, {Name: "L", Type: "ListI"}, {Name: "M", Type: "MapSI"}, {Name: "U", Type: "UnionK"}, {Name: "E", Type: "EnumS"}, {Name: "EI", Type: "EnumI"}, {Name: "By", Type: "Bytes"}}},
@@ -256,6 +260,13 @@ type OptMore struct {
 	M *MapSI
 }
 
+type Swap struct {
+	L    int64
+	R    int64
+	Cur  string
+	Prev string
+}
+
 type Nested struct {
 	P  Plain
 	L  []int64
@@ -303,6 +314,8 @@ func GoPtr(name string) interface{} {
 		return (*OptComp)(nil)
 	case "OptMore":
 		return (*OptMore)(nil)
+	case "Swap":
+		return (*Swap)(nil)
 	}
 	return nil
 }
